@@ -545,6 +545,13 @@ func streamHTTP(o opts) {
 			}
 			streamed := false
 			shape := r.Intn(12)
+			lateDel := shape == 11
+			if lateDel {
+				// committed WITH a forbidding directive, which a clean-up path deletes from the header map afterwards
+				acts = append(acts, hact{kind: 1, k: "Cache-Control", v: pick(r, []string{"no-store", "private", "max-age=60, no-cache"})})
+				status = 200
+				shape = 5
+			}
 			if shape == 0 {
 				acts = append(acts, hact{kind: 4, code: 103})
 				flagInfo = true
@@ -591,7 +598,16 @@ func streamHTTP(o opts) {
 					acts = append(acts, hact{kind: 5, n: n, tag: 65 + len(acts)%50})
 				}
 				if shape == 5 {
-					acts = append(acts, hact{kind: 1, k: pick(r, []string{"X-Late", "Cache-Control", "Set-Cookie"}), v: pick(r, []string{"late", "no-store"})})
+					if lateDel || r.Intn(3) == 0 {
+						// a clean-up path that deletes the directive AFTER the response was committed with it
+						dk := pick(r, []string{"Cache-Control", "Cache-control", "Expires"})
+						if lateDel {
+							dk = "Cache-Control"
+						}
+						acts = append(acts, hact{kind: 3, k: dk})
+					} else {
+						acts = append(acts, hact{kind: 1, k: pick(r, []string{"X-Late", "Cache-Control", "Set-Cookie"}), v: pick(r, []string{"late", "no-store"})})
+					}
 					acts = append(acts, hact{kind: 5, n: 1 + r.Intn(3), tag: 65 + len(acts)%50})
 					flagLate = true
 				}
@@ -839,6 +855,22 @@ func streamHTTP(o opts) {
 		if ok && ttl <= 0 && ttl != -1 {
 			m.violate("C13", fmt.Sprintf("default policy returned a non-positive lifetime %v for %q", ttl, cc), cc)
 		}
+	}
+	// a lone max-age=N: the stored response lives for N seconds (for N beyond what a Duration can hold: for centuries)
+	for _, n := range []int64{1, 59, 3600, 86400, 31536000, 9223372035, 9223372036, 9223372037, 18446744073, 18446744074, 18446744075, 20000000000, 27670116110, 27670116111, 36893488148, 99999999999, 4611686018427387904} {
+		ok, ttl := pol(req, 200, http.Header{"Cache-Control": {fmt.Sprintf("max-age=%d", n)}}, nil)
+		want := time.Duration(math.MaxInt64)
+		if n <= int64(math.MaxInt64/int64(time.Second)) {
+			want = time.Duration(n) * time.Second
+		}
+		floor := want
+		if floor > 200*365*24*time.Hour {
+			floor = 200 * 365 * 24 * time.Hour
+		}
+		if !ok || ttl < floor || (want < 200*365*24*time.Hour && ttl != want) {
+			m.violate("C13", fmt.Sprintf("default policy on Cache-Control \"max-age=%d\" returned (store=%v, lifetime %v); a stored response lives for the positive max-age (%v)", n, ok, ttl, want), fmt.Sprintf("max-age=%d", n))
+		}
+		m.count("lone_max_age")
 	}
 	w.Close()
 	m.Traces, m.Ops = w.traces, w.ops
